@@ -15,20 +15,22 @@ Arguments N.max : simpl never.
 Definition w_idx (p : pc) : option nat :=
   match p with
   | WLinked _ i | WAssigned _ i _ | WPicked _ i _ _ | WAppending _ i _ _ | WInserting _ i _ _ _
-  | WDropped _ i _ _ | WLocked2 _ i _ _ | WParked _ i _ _ | WHead _ i _ _ | WPublished _ i _ => Some i
+  | WDropped _ i _ _ | WLocked2 _ i _ _ | WParked _ i _ _ | WHead _ i _ _ | WPublished _ i _
+  | WFailed _ i _ | WFailedL _ i _ => Some i
   | _ => None
   end.
 (* assigned and not yet published *)
 Definition w_seq (p : pc) : option N :=
   match p with
   | WAssigned _ _ s | WPicked _ _ s _ | WAppending _ _ s _ | WInserting _ _ s _ _
-  | WDropped _ _ s _ | WLocked2 _ _ s _ | WParked _ _ s _ | WHead _ _ s _ => Some s
+  | WDropped _ _ s _ | WLocked2 _ _ s _ | WParked _ _ s _ | WHead _ _ s _
+  | WFailed _ _ s | WFailedL _ _ s => Some s
   | _ => None
   end.
 Definition w_locked (p : pc) : bool :=
   match p with
   | WLocked _ | WLinked _ _ | WAssigned _ _ _ | WPicked _ _ _ _ | WLocked2 _ _ _ _ | WHead _ _ _ _
-  | WPublished _ _ _ | WUnlinked _ _ => true
+  | WPublished _ _ _ | WUnlinked _ _ | WFailedL _ _ _ | WFailedU _ _ => true
   | _ => false
   end.
 Definition f_idx (f : fpc) : option nat :=
@@ -450,20 +452,20 @@ Proof.
   - intros trig g1 j Hf. rewrite Hf in Fl. discriminate.
 Qed.
 
-Lemma skel_wunlink st t b i s :
-  Skel st -> getpc st t = WPublished b i s -> k_mutex st = Some (OClient t) ->
-  Skel (with_pc (with_wl st (k_wlnext st) (unlink (k_wllive st) i)) t (WUnlinked b s)).
+Lemma skel_wunlink st t i pnew :
+  Skel st -> w_idx (getpc st t) = Some i -> k_mutex st = Some (OClient t) ->
+  w_idx pnew = None -> w_seq pnew = None -> (forall b j, pnew <> WLinked b j) -> (forall b j s g, pnew <> WHead b j s g) ->
+  Skel (with_pc (with_wl st (k_wlnext st) (unlink (k_wllive st) i)) t pnew).
 Proof.
-  intros Hsk Hpc Hm.
+  intros Hsk Hti Hm Hni Hns HnL HnH.
   set (st' := with_pc _ t _).
   assert (Oth : forall t', t' <> t -> w_locked (getpc st t') = false) by (intros; now apply (locked_excl st t)).
   assert (Fl : f_locked (k_fl st) = false) by now apply (flocked_client st t).
   assert (Gi : forall t', t' <> t -> w_idx (getpc st' t') = w_idx (getpc st t')).
   { intros t' Hne. unfold st'. autorewrite with kvs. destruct (Pos.eqb_spec t' t); [contradiction|reflexivity]. }
-  assert (Gs : forall t', w_seq (getpc st' t') = w_seq (getpc st t')).
-  { intros t'. unfold st'. autorewrite with kvs. destruct (Pos.eqb_spec t' t) as [->|]; [now rewrite Hpc|reflexivity]. }
-  assert (Gt : getpc st' t = WUnlinked b s) by (unfold st'; apply getpc_with_pc_same).
-  assert (Hti : w_idx (getpc st t) = Some i) by (rewrite Hpc; reflexivity).
+  assert (Gs : forall t', t' <> t -> w_seq (getpc st' t') = w_seq (getpc st t')).
+  { intros t' Hne. unfold st'. autorewrite with kvs. destruct (Pos.eqb_spec t' t); [contradiction|reflexivity]. }
+  assert (Gt : getpc st' t = pnew) by (unfold st'; apply getpc_with_pc_same).
   constructor; unfold st'; st_simpl; fold st'.
   - intros t'. case_t t' t; [intros _; exact Hm|]. unfold st'. autorewrite with kvs.
     destruct (Pos.eqb_spec t' t); [contradiction|]. rewrite (Oth t' E). discriminate.
@@ -472,23 +474,23 @@ Proof.
   - apply (sk_memseq st Hsk).
   - apply asc_unlink, (sk_asc st Hsk).
   - intros j Hj. apply in_unlink in Hj. apply (sk_bound st Hsk). tauto.
-  - intros t' j. case_t t' t; [rewrite Gt; discriminate|]. rewrite (Gi t' E). intros H.
+  - intros t' j. case_t t' t; [rewrite Gt, Hni; discriminate|]. rewrite (Gi t' E). intros H.
     apply in_unlink. split; [eapply (sk_in_c st Hsk); eauto|].
     intros ->. eapply (sk_uniq st Hsk t' t i); eauto.
   - intros j H. apply in_unlink. split; [now apply (sk_in_f st Hsk)|].
     intros ->. eapply (sk_uniq_f st Hsk t i); eauto.
-  - intros t1 t2 j Hne. case_t t1 t; [rewrite Gt; discriminate|]. case_t t2 t; [intros _; rewrite Gt; discriminate|].
+  - intros t1 t2 j Hne. case_t t1 t; [rewrite Gt, Hni; discriminate|]. case_t t2 t; [intros _; rewrite Gt, Hni; discriminate|].
     rewrite (Gi t1), (Gi t2) by assumption. now apply (sk_uniq st Hsk).
-  - intros t1 j. case_t t1 t; [rewrite Gt; discriminate|]. rewrite (Gi t1 E). apply (sk_uniq_f st Hsk).
-  - intros t1 s1. rewrite Gs. apply (sk_seq_hi st Hsk).
-  - intros t1 t2 j j' s1 s2 Hne. rewrite !Gs. case_t t1 t; [rewrite Gt; discriminate|].
-    case_t t2 t; [intros _; rewrite Gt; discriminate|].
-    rewrite (Gi t1), (Gi t2) by assumption. now apply (sk_ord st Hsk).
-  - intros t1 b' j. case_t t1 t; [rewrite Gt; discriminate|].
+  - intros t1 j. case_t t1 t; [rewrite Gt, Hni; discriminate|]. rewrite (Gi t1 E). apply (sk_uniq_f st Hsk).
+  - intros t1 s1. case_t t1 t; [rewrite Gt, Hns; discriminate|]. rewrite (Gs t1 E). apply (sk_seq_hi st Hsk).
+  - intros t1 t2 j j' s1 s2 Hne. case_t t1 t; [rewrite Gt, Hni; discriminate|].
+    case_t t2 t; [intros _; rewrite Gt, Hni; discriminate|].
+    rewrite (Gi t1), (Gi t2), (Gs t1), (Gs t2) by assumption. now apply (sk_ord st Hsk).
+  - intros t1 b' j. case_t t1 t; [rewrite Gt; intros X; exfalso; eapply HnL; eauto|].
     unfold st'. autorewrite with kvs. destruct (Pos.eqb_spec t1 t); [contradiction|].
     intros Hp. assert (X : w_locked (getpc st t1) = true) by (rewrite Hp; reflexivity).
     rewrite (Oth t1 E) in X. discriminate.
-  - intros t1 b' j s1 g1. case_t t1 t; [rewrite Gt; discriminate|].
+  - intros t1 b' j s1 g1. case_t t1 t; [rewrite Gt; intros X; exfalso; eapply HnH; eauto|].
     unfold st'. autorewrite with kvs. destruct (Pos.eqb_spec t1 t); [contradiction|].
     intros Hp. assert (X : w_locked (getpc st t1) = true) by (rewrite Hp; reflexivity).
     rewrite (Oth t1 E) in X. discriminate.
@@ -589,8 +591,14 @@ Proof.
     + mutex_tac Hsk t.
   - (* LWWake *) inv_guard H. subst st'. apply free_none in Hg. mutex_tac Hsk t.
   - (* LWPublish *) inv_guard H. subst st'. apply holds_client in Hg0. eapply skel_wpublish; eassumption.
-  - (* LWUnlink *) inv_guard H. subst st'. apply holds_client in Hg. now apply skel_wunlink.
+  - (* LWUnlink *) inv_guard H. subst st'. apply holds_client in Hg.
+    apply skel_wunlink; auto; try (rewrite Hpc; reflexivity); intros; discriminate.
   - (* LWRet *) inv_guard H. subst st'. apply holds_client in Hg. mutex_tac Hsk t.
+  - (* LWFail *) inversion H; subst st'. frame_tac Hsk t.
+  - (* LWLockF *) inv_guard H. subst st'. apply free_none in Hg. mutex_tac Hsk t.
+  - (* LWUnlinkF *) inv_guard H. subst st'. apply holds_client in Hg.
+    apply skel_wunlink; auto; try (rewrite Hpc; reflexivity); intros; discriminate.
+  - (* LWRetF *) inv_guard H. subst st'. apply holds_client in Hg. mutex_tac Hsk t.
   - (* LInvR *) inversion H; subst st'. frame_tac Hsk t.
   - (* LSnap *) inv_guard H. subst st'. destruct q; frame_tac Hsk t.
   - (* LRMem *) inv_guard H. subst st'.
